@@ -120,6 +120,21 @@ var histSeeds = map[string]func(w *world) *world{
 	},
 }
 
+// singleRowSeed registers (once) and names the seed "t1 with n rows, inserted one statement at a time".
+func singleRowSeed(n int) string {
+	name := fmt.Sprintf("t1x%d-single-rows", n)
+	if _, ok := histSeeds[name]; !ok {
+		histSeeds[name] = func(w *world) *world {
+			ok := w.do(mkCreate("t1", worldSchemas["t1"]))
+			for i := 0; ok && i < n; i++ {
+				ok = w.do(mkInsert(w.model, "t1", 1, false))
+			}
+			return okw(w, ok)
+		}
+	}
+	return name
+}
+
 func okw(w *world, ok bool) *world {
 	if !ok {
 		return nil
